@@ -70,8 +70,11 @@ def lift_sources(sc):
     exprs = re.findall(r"\n\s*lpmIndex:\s*(.+),\n", body)
     if len(exprs) != 2:
         raise AnchorMoved("anchor moved: expected two lpmIndex slot expressions in buildRoutingKernspace, found %d" % len(exprs))
-    for nm, ex in zip(("A", "B"), exprs):
+    if sorted("idx" if "uint32(idx)" in ex else "i" for ex in exprs) != ["i", "idx"]:
+        raise AnchorMoved("anchor moved: the slot expressions of the parallel (idx) and the serial (i) path of buildRoutingKernspace")
+    for ex in exprs:
         var = "idx" if "uint32(idx)" in ex else "i"
+        nm = "Par" if var == "idx" else "Ser"
         parts.append("// slot expression of buildRoutingKernspace\nfunc c02LiftedSlot%s(allocStartIdx uint32, %s int) uint32 {\n\treturn %s\n}\n" % (nm, var, ex))
     for needle, what in ((r"allocStartIdx, err := reserveLpmRingSlots\(lpmCount\)", "ring reservation"),
                          (r"lpmCount := uint32\(len\(simulatedLpmTries\)\)", "lpm count"),
@@ -339,7 +342,7 @@ def run_impl(sc, gobin, cbin, cases, tag):
     for i, (c, r) in enumerate(zip(cases, results)):
         if r.get("stage"):
             # text not accepted / builder rejects / panic: not an installable program (C01/C17 territory) unless harness trouble
-            pre[i] = [(0, 8)] if r["stage"] in ("harness", "portcodec", "compile", "panic") else [(0, 0)]
+            pre[i] = [(0, 8)] if r["stage"] in ("harness", "compile", "panic") else [(0, 0)]
             continue
         if not consistent_inputs(c, r):
             pre[i] = [(0, 8)]
@@ -482,8 +485,8 @@ def main(argv):
     out = vlib.Outcome(PID, args.tier, args.seed)
     rng = vlib.rng_for(args.seed, PID)
     quick = args.tier == "quick"
-    n_prog = 110 if quick else 4000
-    n_pkt = 28 if quick else 56
+    n_prog = 110 if quick else 2500
+    n_pkt = 28 if quick else 48
 
     cov = {"obligations": 0, "discharged": 0,
            "checker_cmd": "cd /verif/coq && coq_makefile -f _CoqProject -o Makefile && make -j16 " + " ".join(TARGETS) + " && coqc -Q . Dae C02_Props.v (Print Assumptions captured)",
@@ -596,7 +599,9 @@ def main(argv):
         widened = False
         spec_fail = lambda: sorted(i for i, e in all_err.items() if any(c == 2 for (_, c) in e))
         other_fail = lambda: sorted(i for i, e in all_err.items() if any(c not in (2, 9) for (_, c) in e))
-        if (not proof_ok or other_fail()) and not spec_fail() and not fatal:
+        # property violations inside the partial theorem's hypotheses (the known process-name divergence must not hide others)
+        real_spec = lambda: sorted(i for i, e in all_err.items() if any(c == 2 and (p, 9) not in e for (p, c) in e))
+        if (not proof_ok or other_fail()) and not real_spec() and not fatal:
             widened = True
             extra = gen(n_prog * (10 if quick else 2), big_every=9)
             base = len(cases)
@@ -622,7 +627,7 @@ def main(argv):
             out.violation("impl_vs_spec_%d" % n_classes,
                           {"program": sprog, "program_text": c01.render(sprog), "packet": spkt, "reloads": srel,
                            "userspace": {k: impl.get(k) for k in ("o", "mark", "must", "err")}, "kernel_word": w, "original_case_index": i,
-                           "outside_pname_hypothesis": guard_violated,
+                           "outside_pname_hypothesis": guard_violated, "port_codec": (res1[0].get("portcodec") if res1 else None),
                            "how": "./check C02 --replay <this file>; the text is parsed by config_parser, lowered by NewRoutingMatcherBuilder, its match-set bytes, ring slots and LPM keys are loaded into the host-compiled tproxy.c maps and the real route() is called with the probe; RoutingMatcher.Match gets the same probe"},
                           "kernel route() and userspace RoutingMatcher.Match decide differently (%s): %s, userspace %s" % (
                               ", ".join(ids), kdesc, json.dumps({k: impl.get(k) for k in ("o", "mark", "must", "err")})),
@@ -635,20 +640,22 @@ def main(argv):
             elif queue:
                 feats = set(c["kind"] for r in sprog["rules"] for c in r["conds"])
                 queue = [q for q in queue if not feats <= set(c["kind"] for r in q[0]["rules"] for c in r["conds"])]
-        if not spec_fail() and (other_fail() or fatal or not proof_ok):
+        # correspondence failures on programs none of whose probes violates the property itself have no failing input
+        unexplained = [] if real_spec() else [i for i in other_fail() if not has_code(all_err, i, 2)]
+        if unexplained or fatal or not proof_ok:
             what = {}
             if not proof_ok:
                 what["proof"] = pinfo["failed"]
             if fatal:
                 what["correspondence"] = fatal
-            of = other_fail()
+            of = unexplained
             if of:
                 i = of[0]
                 what["correspondence_case"] = {"errors": all_err[i], "program_text": cases[i]["text"], "program": cases[i]["prog"], "reloads": cases[i]["reloads"],
                                                "packets": [probe_view(cases[i]["packets"][p]) for (p, c) in all_err[i][:3] if p < len(cases[i]["packets"])],
                                                "impl": {k: all_res.get(i, {}).get(k) for k in ("stage", "err", "kernerr", "alloc", "next", "slots", "raw", "kern")},
                                                "codes": "1 C route()<>kernel model, 3 kernel model<>spec, 4 Go Match<>userspace model, 5 builder bytes<>enc_mset, 6 ring/rewrite/keys/meta<>model, 7 domain entry<>model, 8 harness trouble"}
-            what["searched"] = "%d probes over %d programs (widened=%s) with no C<>dns_adjust(Go) disagreement" % (n_eval, len(cases), widened)
+            what["searched"] = "%d probes over %d programs (widened=%s); %d programs show a C<>dns_adjust(Go) disagreement, none of them explains this" % (n_eval, len(cases), widened, len(spec_fail()))
             out.violation("tie", what, "proof obligation or model correspondence no longer checks; no failing input found", no_failing_input=True)
 
         nontrivial = len(set(s for s in sigs if int(s[1]) >= 2))
